@@ -1,6 +1,7 @@
 P = dict(
     harness='c01_lifecycle.cpp',
-    variants=['asan', 'asan-noexc'],
+    variants=['asan', 'asan-noexc', 'memcheck'],
+    memcheck_stride=dict(quick=20, thorough=20),
     level='exploration',
     technique='runtime monitoring: generated test programs executed by the real framework and by a sequential reference interpreter '
               '(trace, printed failures, summary, counters, runner return value compared), jump-buffer depth / current-test hooks after every test, '
